@@ -14,7 +14,7 @@ from qrv.build import r3
 LEVEL = "exploration"
 RULE = ("set_rate histories of 1-60 edits (re-assignments, zeros, refused diagonal edits) on matrices of dimension 2-8; "
         "generators: dense random, sparse chain, equal-rate chain (non-diagonalisable), absorbing/reducible, symmetric, "
-        "complex-spectrum cycle; time axes with dt*max|K_ii| in [0.005, 0.25], 5-300 points; sub-axes with stride 1-20 "
+        "complex-spectrum cycle; initial populations as float64, integer and single-precision arrays; time axes with dt*max|K_ii| in [0.005, 0.25], 5-300 points; sub-axes with stride 1-20 "
         "and starts shifted by multiples and non-multiples of the stride. distinct = (class, dim, rounded generator, axis, sub-axis); "
         "non-trivial iff the generator has at least one non-zero transfer rate and the populations move by more than 100x the bound.")
 ASSUMPTIONS = ["rate matrices handed to the propagator have non-negative off-diagonals and zero column sums (the statement's quantifier)",
